@@ -203,7 +203,13 @@ def api_search(chk, n_cases):
             rho0 = a3 @ a3.conj().T
             rho0 = rho0 / np.trace(rho0)
             unique = rng.random() < 0.75
-        info = {"dt": dt, "n": n, "start": start, "dkmax": dkmax, "tau_add": tau, "system": kind, "epsrel": eps, "unique": unique}
+        if it % 2 == 1:
+            # the same initial state in Fortran memory order (same values; y+ / the random three-level states are not symmetric)
+            if not three:
+                rho0 = oqupy.operators.spin_dm("y+") if it % 4 == 1 else rho0
+            rho0 = np.asfortranarray(rho0)
+        info = {"dt": dt, "n": n, "start": start, "dkmax": dkmax, "tau_add": tau, "system": kind, "epsrel": eps, "unique": unique,
+                "initial_state_order": "F" if it % 2 == 1 else "C"}
         # how the propagators of a time-dependent system are obtained: sampled at the quarter points (subdiv_limit=None, both
         # methods) or integrated with the SAME settings in both methods (every third case; the pulse of it == 0 in every run)
         sub, leps = None, None
